@@ -8,6 +8,7 @@ import (
 	"reflect"
 	"sort"
 	"strings"
+	"time"
 
 	hjsonlib "gopkg.in/hjson/hjson-go.v3"
 	yamllib "gopkg.in/yaml.v2"
@@ -157,6 +158,46 @@ func typedTarget(v interface{}) reflect.Type {
 	return tIface
 }
 
+// typedTarget2: a second typed mirror - numbers of moderate size as time.Duration (whole numbers are
+// seconds in every syntax), other numbers as float64, lists of them as typed slices.
+func typedTarget2(v interface{}) reflect.Type {
+	switch x := v.(type) {
+	case map[string]interface{}:
+		keys := make([]string, 0, len(x))
+		for k := range x {
+			keys = append(keys, k)
+		}
+		sort.Strings(keys)
+		var fs []reflect.StructField
+		for _, k := range keys {
+			fs = append(fs, reflect.StructField{Name: "F" + strings.ToUpper(k), Type: typedTarget2(x[k]), Tag: reflect.StructTag(fmt.Sprintf(`config:"%s"`, k))})
+		}
+		return reflect.StructOf(fs)
+	case []interface{}:
+		if len(x) > 0 {
+			t0 := typedTarget2(x[0])
+			same := true
+			for _, e := range x[1:] {
+				if typedTarget2(e) != t0 {
+					same = false
+				}
+			}
+			if same && t0 != tIface {
+				return reflect.SliceOf(t0)
+			}
+		}
+		return reflect.TypeOf([]interface{}(nil))
+	case float64:
+		if x > -1e9 && x < 1e9 {
+			return reflect.TypeOf(time.Duration(0))
+		}
+		return reflect.TypeOf(float64(0))
+	case bool:
+		return reflect.TypeOf(false)
+	}
+	return tIface
+}
+
 // typedText renders a typed result with numbers by value (interface{} elements keep the
 // decoder's number type).
 func typedText(v reflect.Value) string {
@@ -225,7 +266,7 @@ func c18Space(ts []*tree.Node, offsets []int) *core.Space {
 			var res core.Result
 			pi := core.Guard(func() {
 				var rawCanon, cfgCanon [3]string
-				var typed [3]string
+				var typed, typed2 [3]string
 				valid := true
 				for k, fe := range c18FrontEnds {
 					raw, err := fe.Decode(b)
@@ -269,6 +310,12 @@ func c18Space(ts []*tree.Node, offsets []int) *core.Space {
 							typed[k] = "error"
 						} else {
 							typed[k] = typedText(tgt.Elem())
+						}
+						tgt2 := reflect.New(typedTarget2(js))
+						if err := cfg.Unpack(tgt2.Interface(), os_.Opts...); err != nil {
+							typed2[k] = "error"
+						} else {
+							typed2[k] = typedText(tgt2.Elem())
 						}
 					}
 					// file loader: same data, and the source in error messages
@@ -329,11 +376,146 @@ func c18Space(ts []*tree.Node, offsets []int) *core.Space {
 						res = core.Fail("cross", "FRONTENDS-DISAGREE-TYPED "+os_.Name, fmt.Sprintf("yaml %s json %s hjson %s", typed[0], typed[1], typed[2]))
 						return
 					}
+					if typed2[0] != typed2[1] || typed2[1] != typed2[2] {
+						res = core.Fail("cross", "FRONTENDS-DISAGREE-TYPED(durations) "+os_.Name, fmt.Sprintf("yaml %s json %s hjson %s", typed2[0], typed2[1], typed2[2]))
+						return
+					}
 					res.Outcome = "valid-in-all-three"
 					res.Nontrivial = true
 				} else {
 					res.Outcome = "decoders-differ"
 				}
+			})
+			if pi != nil {
+				return apiPanic("c18", pi)
+			}
+			return res
+		},
+	}
+}
+
+// c18Dotted: documents whose keys are dotted names (sections created implicitly) loaded from files with
+// PathSep: an error attributed to any of the implicit sections names the file, exactly as for the same
+// sections written as nested objects.
+func c18Dotted() *core.Space {
+	docs := []map[string]interface{}{
+		{"server.tls.port": 8443},
+		{"a.b.c.d": 1},
+		{"a.b": map[string]interface{}{"c.d": 1}},
+		{"a": map[string]interface{}{"b.c.d": 1}},
+		{"l.0.x.y": 1},
+		{"a.b.c": 1, "a.b.d": 2, "a.e.f": 3},
+		{"a.b.c": []interface{}{map[string]interface{}{"d.e": 1}}},
+		{"a": map[string]interface{}{"b": map[string]interface{}{"c": map[string]interface{}{"d": 1}}}},
+	}
+	// every path that holds an object or a list in the loaded config
+	var sections func(v interface{}, prefix string, out *[]string)
+	sections = func(v interface{}, prefix string, out *[]string) {
+		switch x := v.(type) {
+		case map[string]interface{}:
+			for k, e := range x {
+				segs := strings.Split(k, ".")
+				p := prefix
+				for i, sgm := range segs {
+					if p != "" {
+						p += "."
+					}
+					p += sgm
+					if i < len(segs)-1 {
+						*out = append(*out, p)
+					}
+				}
+				switch e.(type) {
+				case map[string]interface{}, []interface{}:
+					*out = append(*out, p)
+				}
+				sections(e, p, out)
+			}
+		case []interface{}:
+			for i, e := range x {
+				p := prefix + "." + fmt.Sprint(i)
+				switch e.(type) {
+				case map[string]interface{}, []interface{}:
+					*out = append(*out, p)
+				}
+				sections(e, p, out)
+			}
+		}
+	}
+	type cs struct {
+		doc  int
+		fe   int
+		path string
+	}
+	var cases []cs
+	for di, d := range docs {
+		var ps []string
+		sections(d, "", &ps)
+		sort.Strings(ps)
+		seen := map[string]bool{}
+		for _, p := range ps {
+			if seen[p] {
+				continue
+			}
+			seen[p] = true
+			for fi := range c18FrontEnds {
+				cases = append(cases, cs{di, fi, p})
+			}
+		}
+	}
+	return &core.Space{
+		Name: "dotted-keys-in-files",
+		Size: len(cases),
+		Text: func(i int) string {
+			c := cases[i]
+			b, _ := json.Marshal(docs[c.doc])
+			return fmt.Sprintf("%s loaded by %s.NewConfigWithFile with PathSep, section %q read as an int", b, c18FrontEnds[c.fe].Name, c.path)
+		},
+		Exec: func(i int) core.Result {
+			c := cases[i]
+			fe := c18FrontEnds[c.fe]
+			var res core.Result
+			pi := core.Guard(func() {
+				if c18Tmp == "" {
+					c18Tmp, _ = os.MkdirTemp(core.RunDir(), "c18-")
+				}
+				b, _ := json.Marshal(docs[c.doc])
+				fname := filepath.Join(c18Tmp, "dotted."+fe.Name)
+				os.WriteFile(fname, b, 0644)
+				opts := []ucfg.Option{ucfg.PathSep(".")}
+				fcfg, err := fe.WithFile(fname, opts...)
+				if err != nil {
+					res = core.Fail("dotted", "FILE-LOAD-FAILED "+fe.Name, err.Error())
+					return
+				}
+				mcfg, err := fe.New(b, opts...)
+				if err != nil {
+					res = core.Fail("dotted", "LOAD-FAILED "+fe.Name, err.Error())
+					return
+				}
+				mk := func() interface{} {
+					return reflect.New(reflect.StructOf([]reflect.StructField{{Name: "F", Type: reflect.TypeOf(0), Tag: reflect.StructTag(fmt.Sprintf(`config:"%s"`, c.path))}})).Interface()
+				}
+				ferr, merr := fcfg.Unpack(mk(), opts...), mcfg.Unpack(mk(), opts...)
+				if ferr == nil || merr == nil {
+					res = core.Fail("dotted", "SECTION-READ-AS-INT-ACCEPTED "+fe.Name, fmt.Sprintf("file: %v memory: %v", ferr, merr))
+					return
+				}
+				fmsg, mmsg := firstLine(ferr.Error()), firstLine(merr.Error())
+				if !strings.Contains(fmsg, "'"+c.path+"'") {
+					res = core.Fail("dotted", "PATH-MISSING "+fe.Name, fmt.Sprintf("expected the message to name '%s': %s", c.path, fmsg))
+					return
+				}
+				if !strings.Contains(fmsg, "source:'"+fname+"'") {
+					res = core.Fail("dotted", "SOURCE-NOT-REPORTED-FOR-IMPLICIT-SECTION "+fe.Name, fmt.Sprintf("section %q of a file: %s", c.path, fmsg))
+					return
+				}
+				if stripped := strings.Replace(fmsg, " (source:'"+fname+"')", "", 1); stripped != mmsg {
+					res = core.Fail("dotted", "FILE-ERROR-DIFFERS "+fe.Name, fmt.Sprintf("memory: %s | file: %s", mmsg, fmsg))
+					return
+				}
+				res.Nontrivial = true
+				res.Outcome = fe.Name
 			})
 			if pi != nil {
 				return apiPanic("c18", pi)
@@ -351,16 +533,16 @@ func init() {
 	core.Register(&core.Check{
 		ID:    "C18",
 		Level: "exploration",
-		Rule:  "JSON-expressible documents (every dict/list shape of depth<=2 over keys {a,b} with lists<=2, leaves assigned cyclically from 31 values: null, booleans, integers incl. 2^53+1 and 2^64-1, floats, and strings that look like other YAML/HJSON/ucfg syntax - '1', 'true', 'null', 'a: b', '#x', '${x}', 'a.b', 'x,y', '[1]', quotes, leading blank, multi-line, non-ASCII) serialised with encoding/json and loaded by yaml.NewConfig, json.NewConfig and hjson.NewConfig under {no options, PathSep, PathSep+VarExp}; per front-end the unpacked data must equal what the front-end's own decoder yields; where the three decoders agree the three configs must unpack to the same generic and typed (StructOf mirror) data; NewConfigWithFile must give the same data and errors must mention source:'<file>'; non-trivial = the document is valid and decoded identically by all three",
+		Rule:  "JSON-expressible documents (every dict/list shape of depth<=2 over keys {a,b} with lists<=2, leaves assigned cyclically from 31 values: null, booleans, integers incl. 2^53+1 and 2^64-1, floats, and strings that look like other YAML/HJSON/ucfg syntax - '1', 'true', 'null', 'a: b', '#x', '${x}', 'a.b', 'x,y', '[1]', quotes, leading blank, multi-line, non-ASCII) serialised with encoding/json and loaded by yaml.NewConfig, json.NewConfig and hjson.NewConfig under {no options, PathSep, PathSep+VarExp}; per front-end the unpacked data must equal what the front-end's own decoder yields; where the three decoders agree the three configs must unpack to the same generic and typed data (two StructOf mirrors: numbers as uint64/float64, and numbers as time.Duration); NewConfigWithFile must give the same data and errors must mention source:'<file>'; 8 documents with dotted keys of up to 4 segments (implicit sections, also inside lists and nested objects) loaded from files with PathSep: reading any implicit section as an int fails naming the section and the file, with the same text as the in-memory loader otherwise; non-trivial = the document is valid and decoded identically by all three",
 		Assumptions: []string{
 			"third-party decoders are trusted and compared with themselves (their quirks are not attributed to ucfg); documents on which they disagree are only checked per front-end",
 			"documents containing ${ are skipped under VarExp (the reference would be unresolvable)",
 		},
 		Spaces: func(tier string) []*core.Space {
 			if tier == "thorough" {
-				return []*core.Space{c18Space(cachedEnum(2, kAB, 2), []int{0, 5, 11, 17, 23})}
+				return []*core.Space{c18Dotted(), c18Space(cachedEnum(2, kAB, 2), []int{0, 5, 11, 17, 23})}
 			}
-			return []*core.Space{c18Space(cachedEnum(2, kAB, 2), []int{0})}
+			return []*core.Space{c18Dotted(), c18Space(cachedEnum(2, kAB, 2), []int{0})}
 		},
 	})
 }
